@@ -1,0 +1,24 @@
+//go:build verif
+
+// Contracts for the deductive verification in /verif (govc), topic rsa (C03, C01).
+// This file contains comments only; it is compiled only with -tags verif.
+
+package dsa
+
+// DSA signature verification (FIPS 186-3, 4.7): "the verifier shall check that 0 < r' < q and
+// 0 < s' < q; if either condition is violated, the signature shall be rejected as invalid."
+// math/big values are visible only through sign and bit length (see
+// /verif/extern/rsa.contracts), so r < q appears as: q positive and bitlen(r) <= bitlen(q).
+// The code additionally rejects P == 0 and a Q whose bit length is not a multiple of 8.
+//
+// Preconditions: Verify dereferences every component of the key and r and s, so a key with a
+// missing (nil) P, Q, G or Y, or a nil r or s, panics (identical to upstream crypto/dsa; the
+// x509 parsers never build such keys). Zero or negative components are answered with false.
+//@ pred bigPos(x) = !x.neg && len(x.abs) > 0
+//@ func Verify
+//@   requires pub != nil && pub.P != nil && pub.Q != nil && pub.G != nil && pub.Y != nil && r != nil && s != nil
+//@   requires bnorm(pub.P) && bnorm(pub.Q)
+//@   ensures  [range] result ==> bigPos(r) && bigPos(s) && bigPos(pub.Q) && blen(r) <= blen(pub.Q) && blen(s) <= blen(pub.Q)
+//@   ensures  [params] result ==> len(pub.P.abs) > 0 && blen(pub.Q) % 8 == 0
+//@   ensures  [reject] (!bigPos(r) || !bigPos(s) || !bigPos(pub.Q) || len(pub.P.abs) == 0) ==> !result
+//@   terminates
